@@ -375,6 +375,12 @@ def owner_tops(ctx: Ctx, f: FunctionInfo, depth: int = 0, seen: Optional[Set[str
     return out
 
 
+def judged_in_callers(ctx: Ctx, f: FunctionInfo) -> bool:
+    """A later-introduced helper that is analysed in place inside at least one KNOWN function: its constructs are judged there.
+    A new function nobody known calls (a new public API, a new entry point) is judged as a function of its own."""
+    return ctx.prog.is_transparent(f) and bool(owner_tops(ctx, f))
+
+
 def effective_compare(ctx: Ctx, f: FunctionInfo, b: Node):
     """The comparison a branch decides: the branch's own Compare, or - for `flag = a < b ... if flag:` - the Compare
     assigned to the flag when that assignment is its only reaching definition.  Returns (Compare, node id where its
